@@ -217,6 +217,20 @@ def run_case(case, ctx):
                 r = ctx.call("sptensor.__rtruediv__", operator.truediv, c, SA)
                 _judge(ctx, "sptensor.__rtruediv__", r, "scalar", np.true_divide(c, A), exact=True)
             ctx.feat(scalar=None)
+            if not case.get("large"):
+                # the dense right-hand side held as a Kruskal tensor (mixed signs, zero factor entries; small integers so that the
+                # products are exact): S * K is S * K.full(), and a product that is zero is not stored
+                R_ = 1 + case["cseed"] % 3
+                Us = [rng.choice([-2.0, -1.0, 0.0, 1.0, 2.0], size=(I, R_)) for I in shape]
+                lam = rng.choice([1.0, -1.0, 2.0, 0.5], size=R_)
+                Kf = np.zeros(shape)
+                for r_ in range(R_):
+                    t = np.array(lam[r_])
+                    for U in Us:
+                        t = np.multiply.outer(t, U[:, r_])
+                    Kf = Kf + t
+                K = ttb.ktensor([U.copy() for U in Us], lam.copy())
+                _binary(ctx, SA, "__mul__", K, "ktensor", A * Kf, exact=True, AB=(A, Kf))
             r = ctx.call("sptensor.ones", SA.ones)
             _judge(ctx, "sptensor.ones", r, "-", (A != 0).astype(float), exact=True)
             r = ctx.call("sptensor.elemfun", SA.elemfun, lambda v: v * -3.0)
